@@ -115,7 +115,7 @@ pub fn one<S: Settings + serde::Serialize + serde::de::DeserializeOwned>(name: &
 pub fn main(tier: &str, seed: u64, outdir: &str) {
     let mut cases = Cases::new();
     let mut rep = Report::new("C19");
-    let n = if tier == "thorough" { 1500 } else { 250 };
+    let n = if tier == "thorough" { 30000 } else { 250 };
     // defaults first
     one("DiagNutsSettings", &DiagNutsSettings::default(), Some(&{ let mut s = DiagNutsSettings::default(); s.num_tune = 30; s }), 0, &mut cases, &mut rep);
     one("LowRankNutsSettings", &LowRankNutsSettings::default(), Some(&{ let mut s = LowRankNutsSettings::default(); s.num_tune = 30; s }), 0, &mut cases, &mut rep);
